@@ -355,6 +355,20 @@ class Check:
             self.violations.append(dict(what="%s/%s: %s" % (op, cls, what), replay=self.violations[0]["replay"]))
         return "violation"
 
+    OTHER_CONFIG = {"VERIF_LOGTRACE": "1", "VERIF_VIEW": "0"}
+
+    def second_pass(self, drv, args, out_path, first_events, timeout=1800):
+        """The generated cases once more under another configuration of things the properties do not mention - the library's
+        logger at trace level, every octet string handed over in a buffer of exactly its size (no spare capacity): results do
+        not depend on either.  Returns the observations that differ from the first pass (only those need a second
+        judgement); counts go to the evidence."""
+        self.run_driver(drv, args, env=dict(self.OTHER_CONFIG), timeout=timeout)
+        evs = read_ndjson(out_path)
+        seen = set(first_events)
+        extra = [e for e in evs if e not in seen]
+        self.cov["second_pass_trace_level_exact_capacity"] = dict(events=len(evs), differing_from_first_pass=len(extra))
+        return extra
+
     def triage(self, mism, classify, confirm, per_class=2, total=12):
         """mism: list of (idx, tuple).  classify(idx, tuple) -> (op, cls, what, replay_obj) or None (not a verdict).
         confirm(idx, tuple) -> bool (reproduced in a fresh process).  Only a bounded number of mismatches per
@@ -374,12 +388,12 @@ class Check:
             if not ok:
                 # drivers run their seeded `record` streams with the library's logger at trace level and everything else at the
                 # default level (ev.Quiet): a mismatch seen there may need that configuration - confirm once more under it
-                self.force_env = {"VERIF_LOGTRACE": "1"}
+                self.force_env = dict(self.OTHER_CONFIG)
                 try:
                     ok = confirm(idx, t)
                 finally:
                     self.force_env = {}
-                if ok: obj = dict(obj, needs="library logger at trace level (logger.GetLogger().SetLevel(logrus.TraceLevel)); the drivers honour VERIF_LOGTRACE=1") if isinstance(obj, dict) else obj
+                if ok: obj = dict(obj, needs="library logger at trace level (logger.GetLogger().SetLevel(logrus.TraceLevel)) and / or inputs in buffers without spare capacity; the drivers honour VERIF_LOGTRACE=1 VERIF_VIEW=0") if isinstance(obj, dict) else obj
             if not ok:
                 self.note("mismatch %s/%s at event %d not reproduced in a fresh process (ignored)" % (op, cls, idx))
                 seen[k] -= 1
